@@ -98,6 +98,37 @@ def make_strided(name, consts):
                 stubs=["stubs/backend.h"], pre_includes=["stubs/algorithm.h"])
 
 
+# ---------------------------------------------------------------- hilbert
+HILBERT = CORE + "backend/transformer/hilbert.hpp"
+HILBERT_SUBST = COMMON_SUBST + [
+    ("utility::nd_size<DIMS_IN>", "ND_SIZE_T", 0),
+    ("coordinate_t", "IN_VEC_T", 0),
+]
+
+
+def make_hilbert(name, consts):
+    fns = numeric_fns_size_t()
+    fns.append(Fn("hilbert_rot", HILBERT, ["struct hilbert"], "rot", ret="void",
+                  ptypes=["size_t", "size_t *", "size_t *", "size_t", "size_t"]))
+    fns.append(Fn("hilbert_calculate_index", HILBERT, ["struct hilbert"], "calculate_index", ret="size_t",
+                  ptypes=["IN_VEC_T", "ND_SIZE_T"], vec_types=["IN_VEC_T", "ND_SIZE_T"],
+                  subst=HILBERT_SUBST + [("rot(", "hilbert_rot(", 1)]))
+    fns.append(Fn("hilbert_at", HILBERT, ["struct hilbert", "struct non_owning_data_t"], "at",
+                  ret="OUT_VEC_PTR_T", ptypes=["IN_VEC_T"], vec_types=["IN_VEC_T"],
+                  method="const HILBERT_SELF_T *self", members=["m_sizes"], arrays=["m_sizes"],
+                  subst=HILBERT_SUBST + [("m_storage.at(", "backend_at(", 1), ("calculate_index(", "hilbert_calculate_index(", 1)],
+                  must={"R11_member": 1}))
+    expr_subst = [("utility::ipow", "ipow", 1), ("utility::round_pow2", "round_pow2", 1), MAXEL] + COMMON_SUBST
+    fns.append(Fn("hilbert_alloc_size_copy", HILBERT, ["struct hilbert"], "make_hilbert_copy", kind="expr",
+                  expr_rx=r"utility::ipow\s*\(", ret="size_t", ptypes=["ND_SIZE_T"], pnames=["sizes"], subst=expr_subst))
+    fns.append(Fn("hilbert_alloc_size_ctor", HILBERT, ["struct hilbert", "struct owning_data_t"], "owning_data_t", kind="expr",
+                  params_hint=r"const\s+T\s*&", expr_in_header=True,
+                  expr_rx=r"utility::ipow\s*\(", ret="size_t", ptypes=["ND_SIZE_T"], pnames=["m_sizes"], subst=expr_subst))
+    return Unit(name, fns, "contracts/hilbert.h", "lemmas/hilbert.c",
+                stubs=["stubs/backend.h"],
+                pre_includes=["stubs/numeric_size_t.h", "contracts/numeric.h", "stubs/algorithm.h"])
+
+
 def get_unit(name, consts=None):
     """name is 'base' or 'base@k=v,k=v' for units whose extraction depends on template arguments."""
     if name in UNITS:
@@ -110,3 +141,4 @@ def get_unit(name, consts=None):
 FACTORIES = {}
 FACTORIES["morton"] = make_morton
 FACTORIES["strided"] = make_strided
+FACTORIES["hilbert"] = make_hilbert
